@@ -531,6 +531,21 @@ def strategy(draw):
       return ['dict', [[k, no_known_calls(x)] for k, x in v[1]]]
     return v
 
+  def no_self_calls(v):
+    # late_fn.p = @late_fn() would recurse for ever once late_fn is known
+    if v[0] == 'ref' and unscoped(v[1]) == LATE_NAME:
+      return ['ref', v[1], False]
+    if v[0] in ('list', 'tuple'):
+      return [v[0], [no_self_calls(x) for x in v[1]]]
+    if v[0] == 'dict':
+      return ['dict', [[no_self_calls(k), no_self_calls(x)] for k, x in v[1]]]
+    return v
+
+  for s in stmts:
+    if s[0] == 'bind' and s[2] == LATE_NAME:
+      s[4] = no_self_calls(s[4])
+    elif s[0] == 'block' and s[2] == LATE_NAME:
+      s[3] = [[a, no_self_calls(v)] for a, v in s[3]]
   for s in stmts:
     if s[0] == 'bind':
       s[4] = no_known_calls(s[4])
